@@ -4,6 +4,11 @@ import itertools
 from framework import Case
 
 PROP = 'C01'
+# tools/rs2lean_reasoning.py regenerates lean/DcVerif/Gen/Reasoning.lean from the current source of graph_reasoning.rs,
+# graph_reasoning_utils.rs and graph.rs; Props/C01Gen.lean proves every generated definition equal to the hand model the
+# C01 theorems are about
+TRANSLATORS = ['reasoning']
+EXTRA_THEOREM_MODULES = ['DcVerif.Props.C01Gen']
 RULE = ('random DAGs (chain, tree, layered, diamonds, dense, disconnected parts; topological order = random permutation of '
         'the indices; edges added in random order, interleaved with node adds), n <= 12 quick / <= 40 thorough, DFS unfolding '
         'bounded; ids = index | permuted | colliding | sparse; functions plain / inverted / contextual; per graph several '
